@@ -310,7 +310,7 @@ class Scenario:
     def readonly_cmds(self, repo=None, f=None):
         """Read-only git commands through the proxy (no clock tick: object ids stay comparable)."""
         cmds = [["status"], ["status", "-s"], ["log", "-1", "--oneline"], ["diff"], ["diff", "--cached", "--stat"], ["show", "--stat"],
-                ["stash", "list"], ["branch", "-a"], ["rev-parse", "HEAD"], ["ls-files"]]
+                ["stash", "list"], ["stash", "show"], ["branch", "-a"], ["rev-parse", "HEAD"], ["ls-files"]]
         if f:
             cmds.append(["blame", "--", f])
         for c in self.vrng.sample(cmds, self.vrng.choice([1, 2, 3])):
@@ -750,7 +750,7 @@ def parse_unified_added(out):
                 cur = None
             else:
                 if p.startswith(b'"'):
-                    p = unquote_c(p)
+                    p = unquote_c(p.rstrip(b"\t"))
                 elif p.endswith(b"\t") and (b" " in p):
                     p = p[:-1]   # git appends a TAB to unquoted names containing spaces
                 cur = p[2:].decode("utf-8", "replace") if p.startswith(b"b/") else p.decode("utf-8", "replace")
